@@ -114,6 +114,8 @@ type ChurnResult struct {
 	// PredRegressions: what the predecessor-pointer monitor saw (see Options.MonitorPred)
 	PredRegressions []PredRegression
 	PredSamples     int64
+	// HiddenResidue: data still returned by a live node's store for keys its range scan does not list
+	HiddenResidue []string
 	// OverlapSig: the set of kinds of membership operations whose windows overlapped in time, by ring
 	// distance of the two nodes (a coarse, readable abstraction of the interleaving)
 	OverlapSig string
@@ -628,6 +630,33 @@ func RunChurnKV(cfg ChurnCfg, scratch string) *ChurnResult {
 				res.Stores[m.ID] = append(res.Stores[m.ID], string(k))
 			}
 			sort.Strings(res.Stores[m.ID])
+			// residue: data a store still returns for a key that its own range scan does not list
+			// (rows left behind by a hand-over: invisible now, but they come back to life when the key
+			// is imported again)
+			{
+				var ks [][]byte
+				for k := 0; k < cfg.Keys; k++ {
+					ks = append(ks, []byte(KeyName(k)))
+				}
+				listed := map[string]bool{}
+				for _, k := range res.Stores[m.ID] {
+					listed[k] = true
+				}
+				if exp, err := m.Node.VerifKV().Export(context.Background(), ks); err == nil && len(exp) == len(ks) {
+					for i, e := range exp {
+						if listed[string(ks[i])] || e == nil {
+							continue
+						}
+						if len(e.GetSimpleValue()) > 0 || len(e.GetPrefixChildren()) > 0 {
+							var cs []string
+							for _, c := range e.GetPrefixChildren() {
+								cs = append(cs, string(c))
+							}
+							res.HiddenResidue = append(res.HiddenResidue, fmt.Sprintf("node %d (%s): key %s is not listed by RangeKeys(0,0), yet Export returns value %q children %q", m.ID, m.Backend, ks[i], e.GetSimpleValue(), cs))
+						}
+					}
+				}
+			}
 			// what the store lists (a second view: listing does not go through the range scan)
 			if listed, err := m.Node.VerifKV().ListKeys(context.Background(), nil); err == nil {
 				seen := map[string]bool{}
